@@ -374,6 +374,8 @@ func main() {
 	noModel := flag.Bool("nomodel", false, "skip the model comparison")
 	trace := flag.Bool("trace", false, "print the environment trace of a replay")
 	child := flag.Bool("child", false, "internal: run as worker, print one JSON line per run")
+	deadline := flag.Int64("deadline", 0, "internal: unix time after which a worker starts no further run")
+	budget := flag.Int("budget", 0, "seconds after which no further run is started (0 = by tier: quick 900, thorough 2700); the runs done so far are reported")
 	mode := flag.String("mode", "all", "mixed|converge|asynccrash|single|zero|snap|figure8|joint|nodefuzz")
 	corpus := flag.String("corpus", "", "directory of replay files to run first (minimised past findings)")
 	directed := flag.String("directed", "", "internal: JSON options to vary (directed search)")
@@ -399,6 +401,9 @@ func main() {
 			*runs = len(rerunOpts)
 		}
 		for i := 0; i < *runs; i++ {
+			if *deadline > 0 && time.Now().Unix() > *deadline && rerunOpts == nil {
+				break // time budget used up: what was run is reported, the rest is counted as not run
+			}
 			o := genOpts(rng, *tier, *mode)
 			if rerunOpts != nil {
 				o = rerunOpts[i]
@@ -443,6 +448,13 @@ func main() {
 	res := report.New("sim/"+*mode, *tier, *seed)
 	res.Rule = "random environment schedules over real RawNodes (1-5 voters, 0-2 learners, sync/async storage, PreVote/CheckQuorum incl. mixed, size limits, crashes at the Ready sub-steps, partitions, loss/dup/reorder, conf changes, compaction+snapshots, transfers, reads); each run's per-node op stream is replayed through the Lean model and output+state digests compared per op; plus single-node fuzzing from random storages with messages of every type around the node's term/log (model comparison only, no monitors); non-trivial = a cluster run in which votes and appends were delivered, or a fuzz run longer than 20 operations; distinct = distinct option/seed combinations"
 	self, _ := os.Executable()
+	if *budget == 0 {
+		*budget = 900
+		if *tier == "thorough" {
+			*budget = 2700
+		}
+	}
+	stopAt := time.Now().Unix() + int64(*budget)
 	var mu sync.Mutex
 	var wg sync.WaitGroup
 	per := (*runs + *workers - 1) / *workers
@@ -451,7 +463,8 @@ func main() {
 		wg.Add(1)
 		go func(w int) {
 			defer wg.Done()
-			args := []string{"-child", "-tier", *tier, "-seed", fmt.Sprint(*seed*1000003 + int64(w)), "-runs", fmt.Sprint(per), "-mode", *mode}
+			args := []string{"-child", "-tier", *tier, "-seed", fmt.Sprint(*seed*1000003 + int64(w)), "-runs", fmt.Sprint(per), "-mode", *mode,
+				"-deadline", fmt.Sprint(stopAt)}
 			if *noModel {
 				args = append(args, "-nomodel")
 			}
@@ -475,6 +488,12 @@ func main() {
 			if err := cmd.Wait(); err != nil {
 				mu.Lock()
 				res.Stats["worker_failed"]++
+				if ee, ok := err.(*exec.ExitError); !ok || ee.ExitCode() != 3 { // 3 = watchdog, which reported its run itself
+					// the process died (a fatal runtime error that recover() cannot catch: stack exhaustion, concurrent map
+					// access, out of memory): the runs it still had to do are lost, and that is reported
+					all = append(all, runResult{Stats: map[string]int{}, Violations: []sim.Violation{{Prop: "*", Key: "simulator worker died",
+						What: fmt.Sprintf("worker %d (seed %d) ended with %v before finishing its runs", w, *seed*1000003+int64(w), err)}}})
+				}
 				mu.Unlock()
 			}
 		}(w)
@@ -602,6 +621,7 @@ func main() {
 func summarise(res *report.Result, all []runResult, expected int) {
 	res.Evaluations = len(all)
 	if len(all) < expected {
+		// runs not executed: the time budget ran out (or a worker died: then a violation says so)
 		res.Stats["runs_missing"] = expected - len(all)
 	}
 	seenV := map[string]bool{}
